@@ -3,6 +3,7 @@ package rules
 import (
 	"fmt"
 	"go/ast"
+	"go/token"
 	"go/types"
 	"sort"
 	"strings"
@@ -15,14 +16,16 @@ func C18(c *Ctx) {
 	r := c.R
 	r.Technique = "ownership / effect analysis on the type-checked runtime of all 16 variants: type-resolved scan of every store (fields of grammar-node types, package-level variables), escape rules for the per-call *parser, pool discipline and linear clone tokens (typestate)"
 	r.Explanation = "Complete ownership argument for the runtime: (a) no function of the runtime stores to a package-level variable or to a field/element of a grammar-node type, so the tree under g is immutable after package initialisation; (b) the only shared mutable object is statePool (a sync.Pool): a dict is Put only in Discard after all its keys were deleted, restoreState overwrites the discarded dict's only reference, and clone tokens are linear, so no dict is live and pooled at once; (c) all other mutable state is reached only through the *parser allocated per call in newParser, which is never stored in a global, a grammar node or sent to another goroutine, and the runtime starts no goroutines. User code blocks and a user-shared *Stats are outside the claim."
-	r.Assumptions = []string{"sync.Pool is safe for concurrent use", "user code blocks and option values are not shared between calls by the user"}
+	r.Assumptions = []string{"sync.Pool is safe for concurrent use", "user code blocks do not share mutable data between calls"}
 	r.Rule("C18-a", "no store (assignment, op-assignment, ++/--, element store, address-of) targets a field of a grammar-node type or a package-level variable anywhere in the runtime")
 	r.Rule("C18-b", "statePool.Put occurs only in Discard after clearing; restoreState = Discard old; install clone; clone tokens are restored at most once per path")
 	r.Rule("C18-c", "no go statement; no value of type *parser is stored outside locals/parameters (not in package variables, struct fields or sent on channels); newParser's result is used only as the receiver of parse in Parse")
+	r.Rule("C18-d", "Option values are immutable: the closure returned by an option constructor stores only through its *parser parameter or into variables declared inside the closure - never into a captured variable (a constructor parameter), so one Option value may be passed to concurrent Parse calls")
 	abs := c.allAbs()
 	r.Min("semantic variants analysed", 16, len(abs))
 	for _, a := range abs {
 		c18a(c, a.V)
+		c18d(c, a.V)
 		if a.V.Params.HasState() {
 			c05ShapesRule(c, a, "C18-b")
 			var bad []string
@@ -191,4 +194,106 @@ func c18c(c *Ctx, v *variants.Variant) {
 	} else {
 		r.Ok("C18-c", "T.parser:per-call-and-confined", v.Name, "builder/static_code.go", "fresh parser per Parse call; never stored, sent or handed to a goroutine")
 	}
+}
+
+// c18d: closures of type Option write only through their parameter or to their own locals.
+func c18d(c *Ctx, v *variants.Variant) {
+	r := c.R
+	optT := v.Pkg.Scope().Lookup("Option")
+	if optT == nil {
+		r.Fatal("variant %s: type Option not found", v.Name)
+		return
+	}
+	n := 0
+	var bad []string
+	for _, fd := range v.Funcs() {
+		if fd.Body == nil {
+			continue
+		}
+		ast.Inspect(fd.Body, func(nd ast.Node) bool {
+			fl, ok := nd.(*ast.FuncLit)
+			if !ok {
+				return true
+			}
+			tv, ok := v.Info.Types[fl]
+			if !ok {
+				return true
+			}
+			sig, ok := tv.Type.(*types.Signature)
+			if !ok || sig.Params().Len() != 1 || sig.Results().Len() != 1 || !types.Identical(sig.Results().At(0).Type(), optT.Type()) {
+				return true
+			}
+			n++
+			param := ""
+			if len(fl.Type.Params.List) == 1 && len(fl.Type.Params.List[0].Names) == 1 {
+				param = fl.Type.Params.List[0].Names[0].Name
+			}
+			check := func(lhs ast.Expr, at ast.Node) {
+				// root identifier of the store target
+				e := lhs
+				for {
+					switch x := e.(type) {
+					case *ast.SelectorExpr:
+						e = x.X
+						continue
+					case *ast.IndexExpr:
+						e = x.X
+						continue
+					case *ast.StarExpr:
+						e = x.X
+						continue
+					case *ast.ParenExpr:
+						e = x.X
+						continue
+					}
+					break
+				}
+				id, ok := e.(*ast.Ident)
+				if !ok || id.Name == "_" {
+					return
+				}
+				obj := v.Info.ObjectOf(id)
+				if obj == nil {
+					return
+				}
+				inside := obj.Pos() >= fl.Pos() && obj.Pos() < fl.End()
+				if id.Name == param && inside && lhs != ast.Expr(id) {
+					return // store through the parser parameter
+				}
+				if inside && id.Name != param {
+					return // local of the closure
+				}
+				bad = append(bad, v.Where(at.Pos())+": the option closure in "+fd.Name.Name+" stores to "+nospace(lhs)+", a variable captured from the constructor: applying the same Option value in two concurrent Parse calls is a data race")
+			}
+			ast.Inspect(fl.Body, func(m ast.Node) bool {
+				switch x := m.(type) {
+				case *ast.FuncLit:
+					return false
+				case *ast.AssignStmt:
+					if x.Tok == token.DEFINE {
+						return true
+					}
+					for _, l := range x.Lhs {
+						check(l, x)
+					}
+				case *ast.IncDecStmt:
+					check(x.X, x)
+				case *ast.UnaryExpr:
+					if x.Op == token.AND {
+						if id, ok := x.X.(*ast.Ident); ok {
+							if obj := v.Info.ObjectOf(id); obj != nil && !(obj.Pos() >= fl.Pos() && obj.Pos() < fl.End()) {
+								if _, isVar := obj.(*types.Var); isVar && obj.Parent() != v.Pkg.Scope() {
+									bad = append(bad, v.Where(x.Pos())+": the option closure in "+fd.Name.Name+" takes the address of the captured variable "+id.Name)
+								}
+							}
+						}
+					}
+				}
+				return true
+			})
+			return true
+		})
+	}
+	sort.Strings(bad)
+	r.Check(len(bad) == 0 && n >= 5, "C18-d", "T.options:closures-write-only-through-their-parser", v.Name, "builder/static_code.go", fmt.Sprintf("%d option closures, none stores to a captured variable", n), fmt.Sprintf("%d option closures; %s", n, strings.Join(uniq(bad), "; ")))
 }
